@@ -96,6 +96,30 @@ CHECKS = {
              'receiver forwards; taking a sender\'s value returns its waker; close wakes all; every returned waker '
              'reaches Waker::wake in each wrapper; Pending stores the current waker.',
         note='Deadlock freedom under every schedule is not decided.', ref='5-C10'),
+    'C12': dict(
+        technique='path-sensitive guard / effect analysis over MIR, who-may-write scan',
+        text='The slot is written only in send under is_fulfilled == false (which also sets the flag, drains and '
+             'wakes), the reject path returns the caller\'s value; single-consumer delivery moves the value out with '
+             'take(), broadcast delivery clones and never takes; None only when fulfilled and empty; Notified never '
+             'produced in these modules.', note='Which receiver wins is not decided.', ref='5-C12'),
+    'C13': dict(
+        technique='path-sensitive guard / orientation analysis over MIR (operand origins of comparisons)',
+        text='state_id changes only by += 1 on the publishing path (value stored, waiters woken, open, id != MAX); '
+             'both delivery sites are guarded by lt(requested, current) in that orientation and return (current id, '
+             'clone of stored value); None only when closed and nothing newer.',
+        note='Convergence over interleavings is not decided.', ref='5-C13'),
+    'C14': dict(
+        technique='path-sensitive effect analysis over MIR (effect-freedom of reset, latch rule)',
+        text='set() newly-set path: flag + drain with wake + Done latch; reset() has exactly one effect (flag = '
+             'false); New completes iff set at that poll, Done completes without reading the flag, Waiting stays '
+             'pending with the latest waker; is_set() returns the flag.',
+        note='Schedules are covered by atomicity of the state functions under the lock.', ref='5-C14'),
+    'C15': dict(
+        technique='path-sensitive guard / orientation analysis over MIR, zero-count arithmetic scan, typestate',
+        text='Expired/Ready only under ge(clock.now(), own expiry) in that orientation; check_expirations marks, '
+             'wakes and removes due minima and stops at the first non-due one; next_expiration = peek_min expiry; '
+             'entry comparisons are self.expiry vs other.expiry; saturating deadline arithmetic.',
+        note='That peek_min is the true minimum (heap order) is assumed (C20).', ref='5-C15'),
 }
 
 
